@@ -1,5 +1,7 @@
 package main
 
+import "fmt"
+
 // ---------------------------------------------------------------------------
 // Message generation over the encodable domain. All choices come from the Rng
 // handed in (which derives from VERIF_SEED); nothing else is consulted.
@@ -55,7 +57,7 @@ func (c *GenCfg) dataMax() int {
 
 func (c *GenCfg) corner(r *Rng) bool { return c.Corner > 0 && r.Intn(100) < c.Corner }
 
-var asciiSamples = []string{"user@example.com", "free5gc", "anonymous@nai.5gc.mnc093.mcc208.3gppnetwork.org", "n3iwf.free5gc.org",
+var asciiSamples = []string{"user@example.com", "alice@Example.COM", "0208930000000001@nai.5gc.mnc093.mcc208.3GPPNETWORK.ORG", "Bob@Sub.Example.Org", "free5gc", "anonymous@nai.5gc.mnc093.mcc208.3gppnetwork.org", "n3iwf.free5gc.org",
 	"0123456789", "AAAAAAAAAAAAAAAA", "EAP-AKA'", "\x00\x00\x00\x00", "IKEv2", "{\"k\":1}"}
 
 func genData(r *Rng, c *GenCfg, minLen int) Hex {
@@ -395,7 +397,107 @@ func inflate(r *Rng, m *MsgSpec, target int) {
 	}
 }
 
+// ---------------------------------------------------------------------------
+// Realistic deployment data: messages shaped like the ones free5GC's N3IWF/TNGF and a UE really exchange
+// (3GPP NAIs and serving-network names, DER-framed certificates, standard proposals, 3GPP notifies, EAP-5G).
+// Uniformly random octets practically never look like this; code that treats such values specially must
+// be exercised too. A few distinct subscribers are used so that messages differ in the realistic parts only.
+// ---------------------------------------------------------------------------
+
+func imsi(r *Rng) string { return fmt.Sprintf("20893%010d", r.Intn(4)) }
+
+func nai(r *Rng) string {
+	return "0" + imsi(r) + "@nai.5gc.mnc093.mcc208." + Pick(r, "3gppnetwork.org", "3gppnetwork.org", "3GPPNETWORK.ORG", "3gppNetwork.Org")
+}
+
+func derCert(r *Rng) Hex {
+	body := []byte("ue-" + imsi(r) + "-certificate-")
+	body = append(body, r.Bytes(r.Range(20, 200))...)
+	l := len(body)
+	return append([]byte{0x30, 0x82, byte(l >> 8), byte(l)}, body...)
+}
+
+func stdProposal(num, proto uint8, spi Hex, esp bool) ProposalSpec {
+	p := ProposalSpec{Num: num, Proto: proto, SPI: spi}
+	p.Encr = []TransformSpec{{Type: 1, ID: 12, HasAttr: true, TV: true, AType: 14, AValue: 256}}
+	p.Integ = []TransformSpec{{Type: 3, ID: 12}}
+	if esp {
+		p.ESN = []TransformSpec{{Type: 5, ID: 0}}
+	} else {
+		p.Prf = []TransformSpec{{Type: 2, ID: 5}}
+		p.DH = []TransformSpec{{Type: 4, ID: 14}}
+	}
+	return p
+}
+
+func genRealisticMsg(r *Rng) *MsgSpec {
+	m := &MsgSpec{ISPI: 0x0a0b0c0d00000000 | uint64(r.Intn(4)), RSPI: 0x1000000000000000 | uint64(r.Intn(4)), Major: 2, MsgID: uint32(r.Intn(6))}
+	netName := "5G:mnc093.mcc208.3gppnetwork.org"
+	switch r.Intn(7) {
+	case 0: // IKE_SA_INIT request
+		m.Exch, m.Flags, m.RSPI, m.MsgID = 34, 0x08, 0, 0
+		m.Payloads = []PayloadSpec{
+			{Kind: "SA", Proposals: []ProposalSpec{stdProposal(1, 1, nil, false)}},
+			{Kind: "KE", B: 14, Data: r.Bytes(256)},
+			{Kind: "Nonce", Data: r.Bytes(32)},
+			{Kind: "N", A: 0, B: 16388, Data: r.Bytes(20)},
+			{Kind: "N", A: 0, B: 16389, Data: r.Bytes(20)},
+		}
+	case 1: // IKE_AUTH request, first round
+		m.Exch, m.Flags = 35, 0x08
+		m.Payloads = []PayloadSpec{
+			{Kind: "IDi", A: 3, Data: Hex(nai(r))},
+			{Kind: "CERTREQ", A: 4, Data: r.Bytes(20)},
+			{Kind: "SA", Proposals: []ProposalSpec{stdProposal(1, 3, r.Bytes(4), true)}},
+			{Kind: "TSi", TS: []TSSpec{{Type: 7, SPort: 0, EPort: 65535, SAddr: Hex{0, 0, 0, 0}, EAddr: Hex{255, 255, 255, 255}}}},
+			{Kind: "TSr", TS: []TSSpec{{Type: 7, SPort: 0, EPort: 65535, SAddr: Hex{10, 0, 0, 1}, EAddr: Hex{10, 0, 0, 1}}}},
+			{Kind: "CP", A: 1, Attrs: []CPAttrSpec{{Type: 1}, {Type: 2}}},
+		}
+	case 2: // IKE_AUTH response with certificate and EAP-5G start
+		m.Exch, m.Flags = 35, 0x20
+		m.Payloads = []PayloadSpec{
+			{Kind: "IDr", A: 2, Data: Hex("n3iwf.free5gc.org")},
+			{Kind: "CERT", A: 4, Data: derCert(r)},
+			{Kind: "AUTH", A: 1, Data: r.Bytes(256)},
+			{Kind: "EAP", EAP: &EAPSpec{Code: 1, ID: r.U8(), Kind: "expanded", VendorID: 10415, VendorType: 3, Data: Hex{1, 0}}},
+		}
+	case 3: // EAP-AKA' challenge
+		m.Exch, m.Flags = 35, 0x20
+		m.Payloads = []PayloadSpec{{Kind: "EAP", EAP: &EAPSpec{Code: 1, ID: r.U8(), Kind: "aka", SubType: 1, Attrs: []AkaAttrSpec{
+			{1, r.Bytes(16)}, {2, r.Bytes(16)}, {11, r.Bytes(16)}, {23, Hex(netName)}, {24, Hex{0, 1}}}}}}
+	case 4: // EAP-AKA' response + EAP-5G NAS
+		m.Exch, m.Flags = 35, 0x08
+		nas := r.Bytes(r.Range(20, 80))
+		m.Payloads = []PayloadSpec{
+			{Kind: "EAP", EAP: &EAPSpec{Code: 2, ID: r.U8(), Kind: "aka", SubType: 1, Attrs: []AkaAttrSpec{{3, r.Bytes(Pick(r, 8, 16))}, {11, r.Bytes(16)}}}},
+			{Kind: "EAP", EAP: &EAPSpec{Code: 2, ID: r.U8(), Kind: "expanded", VendorID: 10415, VendorType: 3, Data: append(Hex{2, 0, 0, 0, byte(len(nas) >> 8), byte(len(nas))}, nas...)}},
+			{Kind: "EAP", EAP: &EAPSpec{Code: 2, ID: r.U8(), Kind: "identity", Data: Hex(nai(r))}},
+		}
+	case 5: // CREATE_CHILD_SA with 3GPP notifies
+		m.Exch, m.Flags = 36, 0x20
+		m.Payloads = []PayloadSpec{
+			{Kind: "SA", Proposals: []ProposalSpec{stdProposal(1, 3, r.Bytes(4), true)}},
+			{Kind: "Nonce", Data: r.Bytes(32)},
+			{Kind: "TSi", TS: []TSSpec{{Type: 7, Proto: 0, SPort: 0, EPort: 65535, SAddr: Hex{10, 60, 0, 1}, EAddr: Hex{10, 60, 0, 1}}}},
+			{Kind: "TSr", TS: []TSSpec{{Type: 7, Proto: 0, SPort: 0, EPort: 65535, SAddr: Hex{10, 60, 0, 2}, EAddr: Hex{10, 60, 0, 2}}}},
+			{Kind: "N", A: 0, B: 55501, Data: Hex{4, 1, 1, 9, 0}},
+			{Kind: "N", A: 0, B: 55504, Data: Hex{10, 0, 0, 1}},
+		}
+	default: // INFORMATIONAL: delete / liveness
+		m.Exch, m.Flags = 37, Pick[uint8](r, 0x08, 0x20, 0x28)
+		if r.Bool() {
+			m.Payloads = []PayloadSpec{{Kind: "D", A: 1}}
+		} else if r.Bool() {
+			m.Payloads = []PayloadSpec{{Kind: "D", A: 3, SPISize: 4, NumSPI: 2, SPIs: []uint32{r.U32(), r.U32()}}}
+		}
+	}
+	return m
+}
+
 func genMsg(r *Rng, c *GenCfg) *MsgSpec {
+	if c.SizeClass != 2 && c.MaxInner >= 1500 && r.Chance(1, 8) {
+		return genRealisticMsg(r)
+	}
 	m := &MsgSpec{}
 	genHeader(r, m)
 	n := r.Intn(c.MaxPayloads + 1)
